@@ -42,12 +42,13 @@ structure Install where
 def Install.langKey (i : Install) : String := i.key.getD "lang"
 
 /-- the global formatter after a HISTORY of installations, for an execution whose context holds `ctx`
-    (`base`: the formatter before any installation). Only the last installation counts. -/
+    (`base`: the formatter before any installation; a context value that is not a string is `none`
+    and names no language). Only the last installation counts. -/
 def installedFmt (base : String → String → List (String × String) → String) (hist : List Install)
-    (ctx : List (String × String)) : String → String → List (String × String) → String :=
+    (ctx : List (String × Option String)) : String → String → List (String × String) → String :=
   match hist.getLast? with
   | none => base
-  | some i => i18nFmt i.langs i.dflt (lookupD ctx i.langKey)
+  | some i => i18nFmt i.langs i.dflt (lookupD ctx i.langKey).join
 
 /-- most specific first: the test's own message, else the execution formatter, else the global one -/
 def pickMessage (testMsg : String) (execFmt : Option (String → String → List (String × String) → String))
